@@ -122,6 +122,8 @@ type Config struct {
 	// Tier2Hook, when set, may fail a job before it runs (fault injection).
 	Tier2Hook func(unit stage.Unit, attempt int) error
 	Timeout   time.Duration // per request (default 20 s)
+	// Remote, when set, replaces the harness' workers by the real RemoteWorker over a fake gRPC transport.
+	Remote *Remote
 	// AfterJob is called when a segment job has finished successfully, before the scheduler hears of it.
 	AfterJob func(unit stage.Unit)
 }
@@ -479,6 +481,9 @@ func Run(mods *pbsubstreams.Modules, req Request, cfg Config) *Result {
 			nextWorker++
 			return &worker{id: nextWorker, w: ws, cfg: &cfg}
 		},
+	}
+	if cfg.Remote != nil {
+		rc.WorkerFactory = cfg.remoteWorkerFactory(cfg.Remote)
 	}
 	svc := service.TestNewService(rc, cfg.Final, cfg.streamFactory(false))
 	request := &pbsubstreamsrpc.Request{
